@@ -46,7 +46,7 @@ vals = st.sampled_from([-2.0, -1.0, -0.5, 0.0, 0.5, 1.0, 2.0, 3.0])
 def limiter_cases(draw):
     n = draw(st.integers(1, 5))
     kind = draw(st.sampled_from(['Limiter', 'HardLimiter', 'DeadBand', 'AntiWindup', 'LessThan', 'IsEqual',
-                                 'Switcher', 'Selector']))
+                                 'Switcher', 'Selector', 'RateLimiter', 'AntiWindupRate']))
     lo, up, u = [], [], []
     for _ in range(n):
         a, b = sorted([draw(vals), draw(vals)])
@@ -58,7 +58,12 @@ def limiter_cases(draw):
     return dict(kind=kind, u=u, lower=lo, upper=up, equal=draw(st.booleans()), enable=draw(st.sampled_from([True, True, False])),
                 sign_lower=draw(st.sampled_from([1, 1, -1])), sign_upper=draw(st.sampled_from([1, 1, -1])),
                 no_lower=draw(st.sampled_from([False, False, True])), no_upper=draw(st.sampled_from([False, False, True])),
-                e=[draw(st.sampled_from([-1.0, 0.0, 1.0])) for _ in range(n)], u2=[draw(vals) for _ in range(n)])
+                e=[draw(st.sampled_from([-1.0, 0.0, 1.0])) for _ in range(n)], u2=[draw(vals) for _ in range(n)],
+                # rate limiters: derivative values, rate limits and per-device enable conditions
+                de=[draw(st.sampled_from([-3.0, -1.0, -0.5, 0.0, 0.5, 1.0, 3.0])) for _ in range(n)],
+                rlo=[draw(st.sampled_from([-2.0, -1.0, -0.5])) for _ in range(n)], rup=[draw(st.sampled_from([0.5, 1.0, 2.0])) for _ in range(n)],
+                clo=[draw(st.sampled_from([0, 1])) for _ in range(n)], cup=[draw(st.sampled_from([0, 1])) for _ in range(n)],
+                cond_given=draw(st.booleans()))
 
 
 def limiter_case(ctx, c):
@@ -140,6 +145,49 @@ def limiter_case(ctx, c):
             if state.v[k] != want_x or state.e[k] != want_e:
                 ctx.fail('pegged_state_not_at_limit', dict(case=c, device=k, x=float(state.v[k]), e=float(state.e[k]),
                                                            expected_x=float(want_x), expected_e=float(want_e)), sig=sig)
+    elif kind in ('RateLimiter', 'AntiWindupRate'):
+        # documented: the derivative of the state is clipped to [rate_lower, rate_upper] where the respective condition
+        # array enables the limit; AntiWindupRate then applies the anti-windup rule to the clipped derivative
+        state = Holder(c['u'], 'x')
+        state.e = np.array(c['de'], dtype=float)
+        rlo, rup = np.array(c['rlo']), np.array(c['rup'])
+        clo = np.array(c['clo'], dtype=float) if c['cond_given'] else np.ones(n)
+        cup = np.array(c['cup'], dtype=float) if c['cond_given'] else np.ones(n)
+        kw = {}
+        if kind == 'RateLimiter':
+            if c['cond_given']:
+                kw = dict(lower_cond=Holder(c['clo'], 'clo'), upper_cond=Holder(c['cup'], 'cup'))
+            comp = D.RateLimiter(state, Holder(c['rlo'], 'rlo'), Holder(c['rup'], 'rup'), no_lower=c['no_lower'], no_upper=c['no_upper'], **kw)
+            nl, nu = c['no_lower'], c['no_upper']
+        else:
+            if c['cond_given']:
+                kw = dict(rate_lower_cond=Holder(c['clo'], 'clo'), rate_upper_cond=Holder(c['cup'], 'cup'))
+            comp = D.AntiWindupRate(state, Holder(c['lower'], 'lower'), Holder(c['upper'], 'upper'), Holder(c['rlo'], 'rlo'), Holder(c['rup'], 'rup'),
+                                    rate_no_lower=c['no_lower'], rate_no_upper=c['no_upper'], **kw)
+            nl, nu = c['no_lower'], c['no_upper']
+        comp.list2array(n)
+        comp.check_eq()
+        de = np.array(c['de'])
+        want = de.copy()
+        zlr = (de < rlo) & (clo == 1) & (not nl)
+        want[zlr] = rlo[zlr]
+        zur = (want > rup) & (cup == 1) & (not nu)
+        want[zur] = rup[zur]
+        if not nl and np.any(np.asarray(comp.zlr, float) != zlr):
+            ctx.fail('rate_limit_flags_wrong', dict(case=c, which='zlr', got=np.asarray(comp.zlr, float).tolist(), expected=zlr.astype(float).tolist()), sig=sig)
+        if not nu and np.any(np.asarray(comp.zur, float) != zur):
+            ctx.fail('rate_limit_flags_wrong', dict(case=c, which='zur', got=np.asarray(comp.zur, float).tolist(), expected=zur.astype(float).tolist()), sig=sig)
+        if kind == 'AntiWindupRate':
+            zu = (uv >= up) & (want >= 0)
+            zl = (uv <= lo) & (want <= 0)
+            for k in range(n):
+                if zu[k] or zl[k]:
+                    want[k] = 0.0
+        if np.any(state.e != want):
+            k = int(np.argmax(state.e != want))
+            ctx.fail('rate_not_limited_as_documented', dict(case=c, device=k, derivative=float(state.e[k]), expected=float(want[k])), sig=sig)
+        if np.any(zlr) or np.any(zur):
+            boundary = True
     elif kind == 'LessThan':
         comp = D.LessThan(u, Holder(c['upper'], 'bound'), equal=c['equal'], enable=c['enable'])
         comp.list2array(n)
